@@ -1,0 +1,93 @@
+//go:build verif
+
+// Contracts for the bmverif deductive checker (comment-only; compiled only under -tags verif).
+// Property C11, structural part: writing a machine to its JSON form and loading it back preserves every persisted
+// field; the `covers` clauses generate one obligation per struct field, so a field added without extending the
+// copiers fails a named obligation.
+
+package procbuilder
+
+//@ props C11
+
+//@ pred sameStrings(a []string, b []string) := len(a) == len(b) && (forall i int :: 0 <= i && i < len(a) ==> a[i] == b[i])
+
+//@ func (mach *Machine) Jsoner() *Machine_json
+//@   requires mach != nil && (forall k int :: 0 <= k && k < len(mach.Op) ==> mach.Op[k] != nil)
+//@   ensures fresh: result != nil && fresh(result)
+//@   ensures modes: sameStrings(result.Modes, mach.Modes)
+//@   ensures scalars: result.Rsize == mach.Rsize && result.WordSize == mach.WordSize && result.R == mach.R && result.N == mach.N && result.M == mach.M &&
+//@             result.L == mach.L && result.O == mach.O && result.Shared_constraints == mach.Shared_constraints && result.Threaded == mach.Threaded
+//@   ensures program: sameStrings(result.Slocs, mach.Slocs) && sameStrings(result.Vars, mach.Vars)
+//@   ensures opnames: len(result.Op) == len(mach.Op) && (forall i int :: 0 <= i && i < len(mach.Op) ==> result.Op[i] == mach.Op[i].Op_get_name())
+//@   covers result Machine_json
+//@   assigns nothing
+//@   loop 1: modifies result.Modes[*]
+//@   loop 1: invariant forall k int :: 0 <= k && k < $i ==> result.Modes[k] == mach.Modes[k]
+//@   loop 2: modifies result.Slocs[*]
+//@   loop 2: invariant forall k int :: 0 <= k && k < $i ==> result.Slocs[k] == mach.Slocs[k]
+//@   loop 3: modifies result.Vars[*]
+//@   loop 3: invariant forall k int :: 0 <= k && k < $i ==> result.Vars[k] == mach.Vars[k]
+//@   loop 4: modifies result.Op[*]
+//@   loop 4: invariant forall k int :: 0 <= k && k < $i ==> result.Op[k] == mach.Op[k].Op_get_name()
+
+// Registers a dynamic opcode when the name asks for one; opcodes already registered keep their position.
+//@ func EventuallyCreateInstruction(name string) (bool, error)
+//@   ensures kept: len(Allopcodes) >= old(len(Allopcodes)) && (forall k int :: 0 <= k && k < old(len(Allopcodes)) ==> Allopcodes[k] == old(Allopcodes[k]))
+//@   ensures nonnil: forall k int :: old(len(Allopcodes)) <= k && k < len(Allopcodes) ==> Allopcodes[k] != nil
+//@   ensures present: (exists k int :: 0 <= k && k < old(len(Allopcodes)) && old(Allopcodes[k]).Op_get_name() == name) ==> len(Allopcodes) == old(len(Allopcodes))
+//@   ensures array: (arr(Allopcodes) == old(arr(Allopcodes)) && off(Allopcodes) == old(off(Allopcodes)) && cap(Allopcodes) == old(cap(Allopcodes))) || fresh(Allopcodes)
+//@   assigns Allopcodes, spare(Allopcodes)
+//@   trusted
+
+//@ func (machj *Machine_json) Dejsoner() *Machine
+//@   requires machj != nil && (forall k int :: 0 <= k && k < len(Allopcodes) ==> Allopcodes[k] != nil)
+//@   ensures fresh: result != nil && fresh(result)
+//@   ensures modes: sameStrings(result.Modes, machj.Modes)
+//@   ensures scalars: result.Rsize == machj.Rsize && result.WordSize == machj.WordSize && result.R == machj.R && result.N == machj.N && result.M == machj.M &&
+//@             result.L == machj.L && result.O == machj.O && result.Shared_constraints == machj.Shared_constraints && result.Threaded == machj.Threaded
+//@   ensures program: sameStrings(result.Slocs, machj.Slocs) && sameStrings(result.Vars, machj.Vars)
+//@   ensures ops: len(result.Op) == len(machj.Op) &&
+//@             (forall i int :: 0 <= i && i < len(machj.Op) && result.Op[i] != nil ==> result.Op[i].Op_get_name() == machj.Op[i])
+//@   ensures nodrop: forall i int, k int :: 0 <= i && i < len(machj.Op) && 0 <= k && k < old(len(Allopcodes)) && old(Allopcodes[k]).Op_get_name() == machj.Op[i] ==> result.Op[i] != nil
+//@   ensures member: forall i int :: 0 <= i && i < len(machj.Op) && result.Op[i] != nil ==> (exists k int :: 0 <= k && k < len(Allopcodes) && Allopcodes[k] == result.Op[i])
+//@   ensures stable: (forall i int :: 0 <= i && i < len(machj.Op) ==> (exists k int :: 0 <= k && k < old(len(Allopcodes)) && old(Allopcodes[k]).Op_get_name() == machj.Op[i])) ==>
+//@             len(Allopcodes) == old(len(Allopcodes))
+//@   ensures registry: len(Allopcodes) >= old(len(Allopcodes)) && (forall k int :: 0 <= k && k < old(len(Allopcodes)) ==> Allopcodes[k] == old(Allopcodes[k]))
+//@   covers result Machine except CpID, SharedHDLOps, Tag
+//@   assigns Allopcodes, spare(Allopcodes)
+//@   loop 1: modifies result.Modes[*]
+//@   loop 1: invariant forall k int :: 0 <= k && k < $i ==> result.Modes[k] == machj.Modes[k]
+//@   loop 2: modifies result.Slocs[*]
+//@   loop 2: invariant forall k int :: 0 <= k && k < $i ==> result.Slocs[k] == machj.Slocs[k]
+//@   loop 3: modifies result.Vars[*]
+//@   loop 3: invariant forall k int :: 0 <= k && k < $i ==> result.Vars[k] == machj.Vars[k]
+//@   loop 4: modifies result.Op[*], Allopcodes, spare(Allopcodes)
+//@   loop 4: invariant grow: len(Allopcodes) >= old(len(Allopcodes)) && (forall k int :: 0 <= k && k < old(len(Allopcodes)) ==> Allopcodes[k] == old(Allopcodes[k])) &&
+//@             (forall k int :: 0 <= k && k < len(Allopcodes) ==> Allopcodes[k] != nil)
+//@   loop 4: invariant sep: arr(result.Op) != arr(Allopcodes) && len(result.Op) == len(machj.Op)
+//@   loop 4: invariant array: (arr(Allopcodes) == old(arr(Allopcodes)) && off(Allopcodes) == old(off(Allopcodes)) && cap(Allopcodes) == old(cap(Allopcodes))) || freshl(Allopcodes)
+//@   loop 4: invariant rest: forall k int :: $i <= k && k < len(result.Op) ==> result.Op[k] == nil
+//@   loop 4: invariant named: forall k int :: 0 <= k && k < $i && result.Op[k] != nil ==> result.Op[k].Op_get_name() == machj.Op[k]
+//@   loop 4: invariant found: forall j int, k int :: 0 <= j && j < $i && 0 <= k && k < old(len(Allopcodes)) && old(Allopcodes[k]).Op_get_name() == machj.Op[j] ==> result.Op[j] != nil
+//@   loop 4: invariant member: forall j int :: 0 <= j && j < $i && result.Op[j] != nil ==> (exists k int :: 0 <= k && k < len(Allopcodes) && Allopcodes[k] == result.Op[j])
+//@   loop 4: invariant stable: (forall j int :: 0 <= j && j < $i ==> (exists k int :: 0 <= k && k < old(len(Allopcodes)) && old(Allopcodes[k]).Op_get_name() == machj.Op[j])) ==>
+//@             len(Allopcodes) == old(len(Allopcodes))
+//@   loop 5: invariant member: result.Op[i] != nil ==> (exists q int :: 0 <= q && q < $i && Allopcodes[q] == result.Op[i])
+//@   loop 5: modifies result.Op[i]
+//@   loop 5: invariant named: result.Op[i] != nil ==> result.Op[i].Op_get_name() == opname
+//@   loop 5: invariant found: forall q int :: 0 <= q && q < $i && Allopcodes[q].Op_get_name() == opname ==> result.Op[i] != nil
+
+// Round trip: a machine whose opcodes are registered (as every machine built by the toolchain is) and whose registry
+// has unique names comes back with every persisted field equal and every opcode restored.
+//@ pred registered(m *Machine) := forall i int :: 0 <= i && i < len(m.Op) ==> (exists k int :: 0 <= k && k < len(Allopcodes) && Allopcodes[k] == m.Op[i])
+//@ pred uniqueNames() := forall a int, b int :: 0 <= a && a < len(Allopcodes) && 0 <= b && b < len(Allopcodes) &&
+//@        Allopcodes[a].Op_get_name() == Allopcodes[b].Op_get_name() ==> a == b
+//@ func verifMachineRoundTrip(m *Machine) *Machine
+//@   requires m != nil && (forall k int :: 0 <= k && k < len(m.Op) ==> m.Op[k] != nil) && (forall k int :: 0 <= k && k < len(Allopcodes) ==> Allopcodes[k] != nil)
+//@   requires registered(m) && uniqueNames() && arr(m.Op) != arr(Allopcodes)
+//@   ensures modes: sameStrings(result.Modes, m.Modes)
+//@   ensures scalars: result.Rsize == m.Rsize && result.WordSize == m.WordSize && result.R == m.R && result.N == m.N && result.M == m.M &&
+//@             result.L == m.L && result.O == m.O && result.Shared_constraints == m.Shared_constraints && result.Threaded == m.Threaded
+//@   ensures program: sameStrings(result.Slocs, m.Slocs) && sameStrings(result.Vars, m.Vars)
+//@   ensures ops: len(result.Op) == len(m.Op) && (forall i int :: 0 <= i && i < len(m.Op) ==> result.Op[i] != nil && result.Op[i].Op_get_name() == m.Op[i].Op_get_name())
+//@   covers result Machine except CpID, SharedHDLOps, Tag
